@@ -15,13 +15,15 @@ import (
 // C10 cases (one line in, one line out)
 //
 //	L <text>                         lex + parse + listener walk of <text> (hex of UTF-8)
-//	    -> tok=<types>[!pos] acc=<0|1> ev=<listener events> le=<0|1>
+//	    -> tok=<types>[!pos] acc=<0|1> ev=<listener events> le=<0|1> dbg=<0|1>
 //	Q <schema> <rows> <text>         the same plus ast.Parse against the schema, a dump of the typed
 //	                                 tree, and EvalBool against every row         (c10_query.go)
 //	T <fwd> <n> <vals...>            ast.TreeSet cursor: add vals, enumerate with n extra Next calls
 //	                                                                              (c10_tree.go)
 //	B <dataset> <text>               the query through real bolt stores, judged for panics only
 //	                                                                              (c10_bolt.go)
+//	O <dataset> <text>               the query through an objectz.ObjectStore, judged for panics only
+//	                                                                              (c10_objz.go)
 //
 // tok: ANTLR token type numbers of the real lexer up to the first token recognition error
 // (`!pos` = code point index at which it was reported).  acc: zitiql.Parse reported no error.
@@ -283,10 +285,15 @@ func b01(b bool) string {
 	return "0"
 }
 
+// dbg: zitiql.ParseWithDebug(s, listener, true) reported no error.  The debug path attaches the console
+// and diagnostic listeners to the pooled parser; its diagnostics (full-context attempts on and/or
+// chains) arrive at the collecting listener too, so dbg may be 0 where acc is 1 - but it must never
+// be 1 where acc is 0, and it must not panic.
 func c10Front(s string) string {
 	tok := c10Lex(s)
 	acc, ev, le := c10Walk(s)
-	return fmt.Sprintf("tok=%s acc=%s ev=%s le=%s", tok, b01(acc), ev, b01(le))
+	dbg := len(zitiql.ParseWithDebug(s, ast.NewListener(), true)) == 0
+	return fmt.Sprintf("tok=%s acc=%s ev=%s le=%s dbg=%s", tok, b01(acc), ev, b01(le), b01(dbg))
 }
 
 // c10Exec runs one case with a per-case time limit (termination of the implementation is observed,
@@ -320,6 +327,8 @@ func c10ExecCase(line string) string {
 		return c10ExecTree(f)
 	case "B":
 		return c10ExecBolt(f)
+	case "O":
+		return c10ExecObj(f)
 	}
 	return "bad-case"
 }
